@@ -44,6 +44,7 @@ func main() {
 	invPath := flag.String("inventory", "", "write the construct inventory here")
 	tags := flag.String("tags", "verif,vsched", "build tags")
 	flag.BoolVar(&racesOn, "races", false, "insert memory-access reports for the happens-before race oracle")
+	accessOnly := flag.String("accessonly", "", "comma-separated packages that get ONLY the access reports of -races (their channel / go / timer constructs stay as they are: their goroutines are not managed)")
 	flag.Parse()
 	if *out == "" || flag.NArg() == 0 {
 		die("usage")
@@ -98,7 +99,12 @@ func main() {
 	})
 	inv := inventory{}
 	for _, pkgdir := range flag.Args() {
-		rewritePkg(fset, imp, *repo, pkgdir, overlay, *out, strings.Split(*tags, ","), inv)
+		rewritePkg(fset, imp, *repo, pkgdir, overlay, *out, strings.Split(*tags, ","), inv, false)
+	}
+	if racesOn && *accessOnly != "" {
+		for _, pkgdir := range strings.Split(*accessOnly, ",") {
+			rewritePkg(fset, imp, *repo, pkgdir, overlay, *out, strings.Split(*tags, ","), inv, true)
+		}
 	}
 	if *invPath != "" {
 		b, _ := json.MarshalIndent(inv, "", " ")
@@ -149,7 +155,7 @@ func tagOK(src []byte, tags []string) bool {
 	return true
 }
 
-func rewritePkg(fset *token.FileSet, imp types.Importer, repo, pkgdir string, overlay map[string]string, out string, tags []string, inv inventory) {
+func rewritePkg(fset *token.FileSet, imp types.Importer, repo, pkgdir string, overlay map[string]string, out string, tags []string, inv inventory, accessOnly bool) {
 	dir := filepath.Join(repo, pkgdir)
 	srcs := map[string]string{} // logical path -> real path
 	ents, err := os.ReadDir(dir)
@@ -193,7 +199,17 @@ func rewritePkg(fset *token.FileSet, imp types.Importer, repo, pkgdir string, ov
 	}
 	for i, f := range files {
 		rw := &rewriter{fset: fset, info: info, inv: inv, file: names[i], pkg: tpkg}
-		rw.file2(f)
+		if accessOnly {
+			rw.skip = map[ast.Node]bool{}
+			rw.cur = f
+			rw.racesPass(f)
+			if !rw.changed {
+				continue // untouched file: the original is compiled
+			}
+			astutil.AddNamedImport(fset, f, "vsched", vsPath)
+		} else {
+			rw.file2(f)
+		}
 		var buf bytes.Buffer
 		if err := format.Node(&buf, fset, f); err != nil {
 			die("print %s: %v", names[i], err)
